@@ -174,6 +174,11 @@ def mk_output(ctx, kind, tag):
         # mime keys are not required to be lower case
         return {"output_type": "display_data",
                 "data": {"text/HTML": "<b>bold</b>\n<i>it</i>\n", "text/plain": "bold it"}, "metadata": {}}
+    if kind == "json_vnd":
+        # a vendor JSON mime type: not diffed recursively, replaced as a whole
+        return {"output_type": "display_data",
+                "data": {"application/vnd.custom.v1+json": {"k": ctx.num(tag), "l": [ctx.num(tag), 2]},
+                         "text/plain": "<vendor JSON>"}, "metadata": {}}
     if kind == "json_obj":
         return {"output_type": "display_data",
                 "data": {"application/json": {"k": ctx.num(tag), "l": [1, 2]},
@@ -247,6 +252,8 @@ TEMPLATES = {
     "codeJlol": dict(type="code", src="A", outputs=["json_lol"], md=0),
     "codeJloo": dict(type="code", src="B", outputs=["json_loo"], md=0),
     "codeJsc": dict(type="code", src="B", outputs=["json_scalar"], md=0),
+    "codeJvnd": dict(type="code", src="A", outputs=["json_vnd"], md=0),
+    "codeNul": dict(type="code", src="A", text="x = 1\ny = '\x00'\nz = 3\n", outputs=[], md=0),
     "codeS": dict(type="code", src="S", outputs=["stream"], md=0),
     "codeS1": dict(type="code", src="S", text="p=1\n", outputs=[], md=0),
     "codeS2": dict(type="code", src="S", text="q=2\n", outputs=[], md=0),
@@ -305,7 +312,14 @@ def _edit_output(ctx, out, variant, tag):
             out["evalue"] = "other"
     else:
         data = dict(out["data"])
-        if "text/HTML" in data:
+        if "application/vnd.custom.v1+json" in data:
+            js = dict(data["application/vnd.custom.v1+json"])
+            if variant == 1:
+                js["k"] = ctx.num(tag)
+            else:
+                js["l"] = [ctx.num(tag), 2]
+            data["application/vnd.custom.v1+json"] = js
+        elif "text/HTML" in data:
             data["text/HTML"] = "<b>bold</b>\n<i>IT</i>\n" if variant == 1 else "<u>other</u>\n"
         elif "application/json" in data:
             js = data["application/json"]
